@@ -1071,23 +1071,35 @@ impl<'a> CompilerState<'a> {
                 }
             })
             .map_infix(|lhs, op, rhs| {
+                // A result that does not fit is an error
+                let fits = |v: Option<i32>| {
+                    v.ok_or_else(|| {
+                        self.syntax_error("Overflow in constant expression", op.as_span().start())
+                    })
+                };
                 let res = match op.as_rule() {
-                    Rule::mul => lhs? * rhs?,
+                    Rule::mul => fits(lhs?.checked_mul(rhs?))?,
                     Rule::div => {
                         let d = rhs?;
                         if d == 0 {
                             let start = op.as_span().start();
                             return Err(self.syntax_error("Division by zero", start));
                         }
-                        lhs? / d
+                        fits(lhs?.checked_div(d))?
                     }
-                    Rule::add => lhs? + rhs?,
-                    Rule::sub => lhs? - rhs?,
+                    Rule::add => fits(lhs?.checked_add(rhs?))?,
+                    Rule::sub => fits(lhs?.checked_sub(rhs?))?,
                     Rule::and => lhs? & rhs?,
                     Rule::or => lhs? | rhs?,
                     Rule::xor => lhs? ^ rhs?,
-                    Rule::brs => lhs? >> rhs?,
-                    Rule::bls => lhs? << rhs?,
+                    Rule::brs => {
+                        let l = lhs?;
+                        fits(u32::try_from(rhs?).ok().and_then(|s| l.checked_shr(s)))?
+                    }
+                    Rule::bls => {
+                        let l = lhs?;
+                        fits(u32::try_from(rhs?).ok().and_then(|s| l.checked_shl(s)))?
+                    }
                     Rule::land => {
                         if lhs? != 0 && rhs? != 0 {
                             1
@@ -1169,7 +1181,9 @@ impl<'a> CompilerState<'a> {
                 Ok(res)
             })
             .map_prefix(|op, rhs| match op.as_rule() {
-                Rule::neg => Ok(-rhs?),
+                Rule::neg => rhs?.checked_neg().ok_or_else(|| {
+                    self.syntax_error("Overflow in constant expression", op.as_span().start())
+                }),
                 Rule::not => Ok(if rhs? == 0 { 1 } else { 0 }),
                 Rule::bnot => Ok(!rhs?),
                 _ => unreachable!(),
@@ -1422,7 +1436,7 @@ impl<'a> CompilerState<'a> {
                                                             Rule::ptr_low => {
                                                                 let val = self.parse_calc(x.into_inner().next().unwrap().into_inner())?;
                                                                 if val == 255 {
-                                                                    VariableValue::LowPtr((id_name, sign * offset))
+                                                                    VariableValue::LowPtr((id_name, offset.wrapping_mul(sign)))
                                                                 } else {
                                                                     return Err(self.syntax_error(&format!("Incorrect suffix to reference {}", id_name), start))
                                                                 }
@@ -1430,14 +1444,14 @@ impl<'a> CompilerState<'a> {
                                                             Rule::ptr_hi => {
                                                                 let val = self.parse_calc(x.into_inner().next().unwrap().into_inner())?;
                                                                 if val == 8 {
-                                                                    VariableValue::HiPtr((id_name, sign * offset))
+                                                                    VariableValue::HiPtr((id_name, offset.wrapping_mul(sign)))
                                                                 } else {
                                                                     return Err(self.syntax_error(&format!("Incorrect suffix to reference {}", id_name), start))
                                                                 }
                                                             },
                                                             _ => return Err(self.syntax_error(&format!("Incorrect suffix to reference {}", id_name), start))
                                                         },
-                                                        None => VariableValue::LowPtr((id_name, sign * offset)),
+                                                        None => VariableValue::LowPtr((id_name, offset.wrapping_mul(sign))),
                                                     }
                                                     }
                                                     _ => {
@@ -1524,7 +1538,7 @@ impl<'a> CompilerState<'a> {
                                                                             Rule::ptr_low => {
                                                                                 let val = self.parse_calc(x.into_inner().next().unwrap().into_inner())?;
                                                                                 if val == 255 {
-                                                                                    v.push(VariableValue::LowPtr((id_name, sign * offset)))
+                                                                                    v.push(VariableValue::LowPtr((id_name, offset.wrapping_mul(sign))))
                                                                                 } else {
                                                                                     return Err(self.syntax_error(&format!("Incorrect suffix to reference {}", id_name), start))
                                                                                 }
@@ -1532,14 +1546,14 @@ impl<'a> CompilerState<'a> {
                                                                             Rule::ptr_hi => {
                                                                                 let val = self.parse_calc(x.into_inner().next().unwrap().into_inner())?;
                                                                                 if val == 8 {
-                                                                                    v.push(VariableValue::HiPtr((id_name, sign * offset)))
+                                                                                    v.push(VariableValue::HiPtr((id_name, offset.wrapping_mul(sign))))
                                                                                 } else {
                                                                                     return Err(self.syntax_error(&format!("Incorrect suffix to reference {}", id_name), start))
                                                                                 }
                                                                             },
                                                                             _ => return Err(self.syntax_error(&format!("Incorrect suffix to reference {}", id_name), start))
                                                                         },
-                                                                        None => v.push(VariableValue::LowPtr((id_name, sign * offset))),
+                                                                        None => v.push(VariableValue::LowPtr((id_name, offset.wrapping_mul(sign)))),
                                                                     }
                                                                 },
                                                                 _ => return Err(self.syntax_error(&format!("Incorrect suffix to reference {}", id_name), start))
@@ -1584,7 +1598,7 @@ impl<'a> CompilerState<'a> {
                                                             Some(x) => match x.as_rule() {
                                                                 Rule::ptr_offset => {
                                                                     let sign = if x.as_str().starts_with("-") { -1 } else { 1 };
-                                                                    sign * self.parse_int(x.into_inner().next().unwrap().into_inner().next().unwrap())?
+                                                                    self.parse_int(x.into_inner().next().unwrap().into_inner().next().unwrap())?.wrapping_mul(sign)
                                                                 },
                                                                 _ => return Err(self.syntax_error(&format!("Incorrect suffix to reference {}", s), start))
                                                             },
